@@ -287,6 +287,16 @@ func (h *harn) chain(base string, via int, acts []chainAct, evs []hx.Sx) {
 }
 
 func (h *harn) proc(base string, which int, t *rnode, mode string, invert bool, cs []cond, evs []hx.Sx) {
+	inner, f, ok := h.procCase(t, mode, invert, cs, evs)
+	if !ok {
+		return
+	}
+	h.c.Do(route(base, f), which, inner, f.resolves)
+}
+
+// the case of which = 2 / 3 (also the inner case of which = 5): checks, oracle tables, counters
+func (h *harn) procCase(t *rnode, mode string, invert bool, cs []cond, evs []hx.Sx) (hx.Sx, flags, bool) {
+	var f flags
 	var trees []*rnode
 	tsx := hx.Sx(hx.I(0))
 	if t != nil {
@@ -294,9 +304,8 @@ func (h *harn) proc(base string, which int, t *rnode, mode string, invert bool, 
 		trees = []*rnode{t}
 	}
 	if !h.usable(trees, cs, evs) {
-		return
+		return nil, f, false
 	}
-	var f flags
 	tb := newTables()
 	for _, ev := range evs {
 		if t != nil {
@@ -314,7 +323,7 @@ func (h *harn) proc(base string, which int, t *rnode, mode string, invert bool, 
 		tb.addConds(cs, jObj())
 	}
 	if f.escState || h.holdBack(f) {
-		return
+		return nil, f, false
 	}
 	if t != nil {
 		tsx = t.sx()
@@ -330,7 +339,7 @@ func (h *harn) proc(base string, which int, t *rnode, mode string, invert bool, 
 		}
 	}
 	h.c.W.Count("legacy_mode_" + mode)
-	h.c.Do(route(base, f), which, hx.L(tsx, hx.S(mode), hx.Bool(invert), hx.L(csx...), hx.L(evs...), hx.Z(nominalNow), tb.sx()), f.resolves)
+	return hx.L(tsx, hx.S(mode), hx.Bool(invert), hx.L(csx...), hx.L(evs...), hx.Z(nominalNow), tb.sx()), f, true
 }
 
 func c14Gen(c *hmain.Ctx) {
@@ -345,6 +354,7 @@ func c14Gen(c *hmain.Ctx) {
 	genThresholds(h)
 	genCoverage(h)
 	genMatchCfg(h)
+	genShared(h)
 }
 
 func main() {
@@ -353,6 +363,6 @@ func main() {
 	insaneJSON.DisableBeautifulErrors = true
 	insaneJSON.StartNodePoolSize = 16
 	hmain.Run(&hmain.Prop{ID: "C14",
-		Rule: "exhaustive: every equal/contains/prefix/suffix node (case-sensitive and not) over every list of 1-2 values from {nil, strings over {a,B} up to length 2} x every field from {absent, null, 1, {}, strings over {a,B} up to length 3}; every and/or/not tree of depth <= 2 and width <= 2 over a true and a false leaf; every type check x every kind of field. random: trees of depth <= 6 over all operators with values derived from the event's own strings (shared prefixes, equal lengths, other case, multi-byte), events with absent/null/number/bool/object/array fields; sequences of checkers over sequences of events; legacy match_fields through processor.isMatch and through a real pipeline with a discard action; constructor-rejected rules. thresholds: events of 15-33 fields (insane-json map index from 17 fields on) alternating with narrow ones on one Root, through doif and through processor.isMatch; int_val_cmp on integers of 17-20 digits and around 2^31, 2^32, 2^53, 2^63; timestamps at both ends of the int64-nanosecond range; ts_cmp `now` with a 2 ms update interval and pauses between events. coverage round: the same rules x events with the rule written tersely (documented defaults left out, scalar values) / as JSON text / with float numbers / inside the antispam section of a pipeline settings object, read by doif.NewFromMap, fd.extractDoIfChecker, fd.extractAntispamRules, fd.extractPipelineParams; 36 malformed node maps and 6 constructor calls with unknown names, alone and under and/or/not; antispam rules (threshold 0) over (record bytes, source name, meta map) through Antispammer.IsSpam and Pipeline.In; chains of 1-4 probe actions, each with its own do_if selector (or none) and result script (pass / break / discard / collapse), over 3-8 events of one stream in a real pipeline. round 5: the match_fields map as written (every value a JSON tree: scalar string, list of 0-6 strings, nested list, number, bool, null, object; strings of every class: plain, empty, between slashes, leading slash only, '/', '//', not compiling, metacharacters, blanks, multi-byte) x every match mode x invert, read by fd.extractConditions (translation observed) + processor.isMatch and by fd.SetupActions in a real pipeline. Non-trivial = at least one leaf's (condition's) field exists in the event; distinct = distinct (sub-model, case) text.",
+		Rule: "exhaustive: every equal/contains/prefix/suffix node (case-sensitive and not) over every list of 1-2 values from {nil, strings over {a,B} up to length 2} x every field from {absent, null, 1, {}, strings over {a,B} up to length 3}; every and/or/not tree of depth <= 2 and width <= 2 over a true and a false leaf; every type check x every kind of field. random: trees of depth <= 6 over all operators with values derived from the event's own strings (shared prefixes, equal lengths, other case, multi-byte), events with absent/null/number/bool/object/array fields; sequences of checkers over sequences of events; legacy match_fields through processor.isMatch and through a real pipeline with a discard action; constructor-rejected rules. thresholds: events of 15-33 fields (insane-json map index from 17 fields on) alternating with narrow ones on one Root, through doif and through processor.isMatch; int_val_cmp on integers of 17-20 digits and around 2^31, 2^32, 2^53, 2^63; timestamps at both ends of the int64-nanosecond range; ts_cmp `now` with a 2 ms update interval and pauses between events. coverage round: the same rules x events with the rule written tersely (documented defaults left out, scalar values) / as JSON text / with float numbers / inside the antispam section of a pipeline settings object, read by doif.NewFromMap, fd.extractDoIfChecker, fd.extractAntispamRules, fd.extractPipelineParams; 36 malformed node maps and 6 constructor calls with unknown names, alone and under and/or/not; antispam rules (threshold 0) over (record bytes, source name, meta map) through Antispammer.IsSpam and Pipeline.In; chains of 1-4 probe actions, each with its own do_if selector (or none) and result script (pass / break / discard / collapse), over 3-8 events of one stream in a real pipeline. round 5: the match_fields map as written (every value a JSON tree: scalar string, list of 0-6 strings, nested list, number, bool, null, object; strings of every class: plain, empty, between slashes, leading slash only, '/', '//', not compiling, metacharacters, blanks, multi-byte) x every match mode x invert, read by fd.extractConditions (translation observed) + processor.isMatch and by fd.SetupActions in a real pipeline. round 6: rule immutability (the conditions / do_if tree read back after the events of every which = 2 / 4 / 5 case are the configured ones, values in order) and stream `shared-rule`: one rule (value lists of 2-12 values, optional second condition, every mode x invert, one case in four with a do_if tree) shared by 2-8 goroutines that evaluate events matching different non-first values 2*10^5 times at once, then a sequential sweep. Non-trivial = at least one leaf's (condition's) field exists in the event; distinct = distinct (sub-model, case) text.",
 		Gen:  c14Gen, Exec: c14Exec})
 }
